@@ -426,7 +426,7 @@ func properties() map[string]*propDef {
 					}
 				}
 				if tier == "thorough" {
-					variants = append(variants, 1+(nhist*7+seed+5)%19, 1+(nhist*7+seed+11)%19, 10+len(ops))
+					variants = append(variants, 1+(nhist*7+seed+5)%19, 10+len(ops))
 				}
 				seen := map[int]bool{}
 				for _, v := range variants {
